@@ -3,6 +3,8 @@ CONSTANTS
   MaxN = 2
   Templates <- TplC18all
   Bundles <- TlsBundles
+  Ctxs <- Wide
+  Hists <- NoHist
   BackoffCfgs <- NoBoCfgs
   Attempts <- BoAttempts
 INVARIANT TypeOK Returned NoLateContact
